@@ -11,5 +11,7 @@ CONSTANTS
   TsFix = TRUE
   Late = {a}
   NeedKnown = FALSE
+  SplitDeliver = FALSE
+  GuardedEvict = TRUE
   Depth = 22
 CHECK_DEADLOCK FALSE
